@@ -1,0 +1,23 @@
+//go:build verif
+
+package kernel
+
+// Verification hook for property C23 (transaction cache, kernel callers). Add-only, compiled only
+// with the `verif` build tag.
+
+import (
+	"github.com/MixinNetwork/mixin/crypto"
+	"github.com/MixinNetwork/mixin/storage"
+)
+
+// VerifC23Node builds the part of a Node that the cache wrappers CacheQueueTransactions,
+// CacheStoreTransactions and QueueTransaction use: the store, an empty chain map and the
+// queue wake-up channel.
+func VerifC23Node(store storage.Store) *Node {
+	return &Node{
+		persistStore: store,
+		chains:       &chainsMap{m: make(map[crypto.Hash]*Chain)},
+		queueWake:    make(chan struct{}, 1),
+		done:         make(chan struct{}),
+	}
+}
